@@ -228,6 +228,11 @@ type lay struct {
 	root, parent common.Hash
 	id           uint64
 	disk         bool
+	// orphan: the layer hangs (directly or through its ancestors) off a layer that
+	// was flattened into the disk layer while it was not on the capped path. The
+	// tree under test keeps such a layer in the tree but leaves its parent pointer
+	// on the stale pre-flatten objects (finding "stale-parent-link").
+	orphan bool
 }
 
 type canonEntry struct {
@@ -245,7 +250,8 @@ type model struct {
 	canon []canonEntry
 	// dropEpoch counts tree changes (used by readers to decide whether a root was
 	// live for a whole interval)
-	epoch uint64
+	epoch     uint64
+	capOrphan bool
 	// liveSince / deadAt per root in epochs
 	maxDiff int
 }
@@ -315,18 +321,21 @@ func (m *model) update(root, parent common.Hash) (updateOutcome, []common.Hash) 
 	if p == nil {
 		return updReject, nil
 	}
-	m.layers[root] = &lay{root: root, parent: parent, id: p.id + 1}
+	m.layers[root] = &lay{root: root, parent: parent, id: p.id + 1, orphan: p.orphan}
 	m.epoch++
 	return updAdded, m.cap(root, m.maxDiff)
 }
 
 // cap mirrors layerTree.cap. Returns the roots flattened into disk, bottom first.
+// m.capOrphan reports whether the flattened chain contained an orphan-linked
+// layer (the tree under test cannot flatten those: finding "stale-parent-link").
 func (m *model) cap(root common.Hash, layers int) []common.Hash {
+	m.capOrphan = false
 	l := m.layers[root]
 	if l == nil || l.disk {
 		return nil
 	}
-	var newBase *lay
+	var newBase, onPath *lay
 	if layers == 0 {
 		newBase = l
 	} else {
@@ -342,12 +351,15 @@ func (m *model) cap(root common.Hash, layers int) []common.Hash {
 		if p.disk {
 			return nil
 		}
-		newBase = p
+		newBase, onPath = p, diff
 	}
 	// chain from the old base (exclusive) up to newBase (inclusive)
 	var chain []*lay
 	for c := newBase; !c.disk; c = m.layers[c.parent] {
 		chain = append(chain, c)
+		if c.orphan {
+			m.capOrphan = true
+		}
 	}
 	var flat []common.Hash
 	for i := len(chain) - 1; i >= 0; i-- {
@@ -358,20 +370,34 @@ func (m *model) cap(root common.Hash, layers int) []common.Hash {
 		m.canon = append(m.canon, canonEntry{c.root})
 		flat = append(flat, c.root)
 	}
-	// keep only newBase and its descendants
 	keep := map[common.Hash]*lay{}
-	for r, x := range m.layers {
-		for c := x; ; c = m.layers[c.parent] {
-			if c == newBase {
-				keep[r] = x
-				break
-			}
-			if c.disk {
-				break
+	if layers == 0 {
+		// a full commit resets the tree to the single new disk layer
+		keep[newBase.root] = newBase
+	} else {
+		// keep newBase and its descendants; those not below the capped path's child
+		// keep pointing at the pre-flatten objects
+		for r, x := range m.layers {
+			under := false
+			for c := x; ; c = m.layers[c.parent] {
+				if c == onPath {
+					under = true
+				}
+				if c == newBase {
+					keep[r] = x
+					if !under && x != newBase {
+						x.orphan = true
+					}
+					break
+				}
+				if c.disk {
+					break
+				}
 			}
 		}
 	}
 	newBase.disk = true
+	newBase.orphan = false
 	newBase.parent = newBase.root
 	m.layers = keep
 	m.base = newBase.root
